@@ -12,6 +12,7 @@ CONSTANTS
   HWs = {1}
   Pids = {1}
   MaxUnrep = 1000000
+  Epochs = {1}
   ProbeIds <- TraceProbeIds
   ProbeFroms <- TraceProbeFroms
   ProbeNos <- TraceProbeNos
